@@ -35,6 +35,87 @@ type Exec struct {
 	casBase  int64
 	drops    int64
 	dropBase int64
+	// Opt-in (zero value = old behaviour):
+	// Scribble: after every call the executor overwrites the slices and maps it handed to the
+	// engine (vector, top level of the metadata / property map, batch items, KV value, id
+	// list). A straightforward map of records holds the values of the moment of the call;
+	// whatever the caller does to its own buffers afterwards must not show in any later read.
+	Scribble bool
+	// ScribbleNested (with Scribble): also overwrite, in place, the lists / objects / typed Go
+	// slices and maps that are VALUES of the metadata handed over.
+	ScribbleNested bool
+	// Touched lists the (index, id) pairs named by the data operations since the consumer last
+	// reset it (for a light read check after every operation).
+	Touched []Touch
+}
+
+// Touch is one (index, id) pair named by an operation.
+type Touch struct{ Index, ID string }
+
+func (x *Exec) touch(index string, ids ...string) {
+	for _, id := range ids {
+		x.Touched = append(x.Touched, Touch{index, id})
+	}
+}
+
+// ScribbleVec overwrites a vector that was handed to the engine.
+func ScribbleVec(v []float32) {
+	for i := range v {
+		v[i] = -7777
+	}
+}
+
+// ScribbleMeta overwrites a metadata / property map that was handed to the engine: nested
+// lists and objects in place (only when nested is set), then every top-level value, plus one
+// foreign key.
+func ScribbleMeta(m map[string]any, nested bool) {
+	if m == nil {
+		return
+	}
+	for k, v := range m {
+		if nested {
+			scribbleVal(v)
+		}
+		m[k] = "SCRIBBLED"
+	}
+	m["zz_scribbled"] = true
+}
+
+func scribbleVal(v any) {
+	switch t := v.(type) {
+	case map[string]any:
+		for k, e := range t {
+			scribbleVal(e)
+			t[k] = "SCRIBBLED"
+		}
+		if t != nil {
+			t["zz_scribbled"] = true
+		}
+	case []any:
+		for i, e := range t {
+			scribbleVal(e)
+			t[i] = "SCRIBBLED"
+		}
+	case []string:
+		for i := range t {
+			t[i] = "SCRIBBLED"
+		}
+	case []int:
+		for i := range t {
+			t[i] = -7777
+		}
+	case []float64:
+		for i := range t {
+			t[i] = -7777
+		}
+	case map[string]string:
+		for k := range t {
+			t[k] = "SCRIBBLED"
+		}
+		if t != nil {
+			t["zz_scribbled"] = "x"
+		}
+	}
 }
 
 func Options(dir string) engine.Options {
@@ -185,7 +266,16 @@ func (x *Exec) KVSet(k string, v []byte) error {
 	x.kind("kvset")
 	x.CS.Op("KVSet(%q, %x)", k, v)
 	x.M.SeenKeys[k] = true
-	err := x.E.KVSet(k, v)
+	arg := v
+	if x.Scribble {
+		arg = append([]byte{}, v...)
+	}
+	err := x.E.KVSet(k, arg)
+	if x.Scribble {
+		for i := range arg {
+			arg[i] ^= 0xFF
+		}
+	}
 	x.verdict("KVSet", err, MustOK)
 	if err == nil {
 		x.M.KV[k] = append([]byte{}, v...)
@@ -374,9 +464,15 @@ func (x *Exec) VAdd(index, id string, vec []float32, meta map[string]any) error 
 	x.kind("vadd")
 	x.CS.Op("VAdd(%s,%s,%v,%s)", index, id, vec, vkit.JSON(meta))
 	x.M.SeenIDs[id] = true
+	x.touch(index, id)
+	argV, argM := CopyVec(vec), copyMeta(meta)
 	lo := x.Now()
-	err := x.E.VAdd(index, id, CopyVec(vec), copyMeta(meta))
+	err := x.E.VAdd(index, id, argV, argM)
 	hi := x.Now()
+	if x.Scribble {
+		ScribbleVec(argV)
+		ScribbleMeta(argM, x.ScribbleNested)
+	}
 	mi := x.M.Idx[index]
 	want := MustOK
 	switch {
@@ -413,6 +509,7 @@ func (x *Exec) addMany(kind, index string, items []types.BatchObject) error {
 	for i, it := range items {
 		cp[i] = types.BatchObject{Id: it.Id, Vector: CopyVec(it.Vector), Metadata: copyMeta(it.Metadata)}
 		x.M.SeenIDs[it.Id] = true
+		x.touch(index, it.Id)
 	}
 	lo := x.Now()
 	var err error
@@ -422,6 +519,13 @@ func (x *Exec) addMany(kind, index string, items []types.BatchObject) error {
 		err = x.E.VAddBatch(index, cp)
 	}
 	hi := x.Now()
+	if x.Scribble {
+		for i := range cp {
+			ScribbleVec(cp[i].Vector)
+			ScribbleMeta(cp[i].Metadata, x.ScribbleNested)
+			cp[i].Id = "SCRIBBLED"
+		}
+	}
 	mi := x.M.Idx[index]
 	want := MustOK
 	dim := 0
@@ -492,6 +596,7 @@ func (x *Exec) VDelete(index, id string) error {
 	x.kind("vdelete")
 	x.CS.Op("VDelete(%s,%s)", index, id)
 	x.M.SeenIDs[id] = true
+	x.touch(index, id)
 	lo := x.Now()
 	err := x.E.VDelete(index, id)
 	x.verdict(fmt.Sprintf("VDelete(%s,%s)", index, id), err, map[bool]int{true: MustOK, false: MustFail}[x.live(index, id)])
@@ -511,7 +616,12 @@ func (x *Exec) VDelete(index, id string) error {
 func (x *Exec) VSetMetadata(index, id string, props map[string]any) error {
 	x.kind("vsetmeta")
 	x.CS.Op("VSetMetadata(%s,%s,%s)", index, id, vkit.JSON(props))
-	err := x.E.VSetMetadata(index, id, copyMeta(props))
+	x.touch(index, id)
+	argM := copyMeta(props)
+	err := x.E.VSetMetadata(index, id, argM)
+	if x.Scribble {
+		ScribbleMeta(argM, x.ScribbleNested)
+	}
 	x.verdict(fmt.Sprintf("VSetMetadata(%s,%s)", index, id), err, map[bool]int{true: MustOK, false: MustFail}[x.live(index, id)])
 	if err != nil {
 		return err
@@ -528,9 +638,19 @@ func (x *Exec) VSetMetadata(index, id string, props map[string]any) error {
 func (x *Exec) VReinforce(index string, ids []string) error {
 	x.kind("vreinforce")
 	x.CS.Op("VReinforce(%s,%v)", index, ids)
+	x.touch(index, ids...)
+	argIDs := ids
+	if x.Scribble {
+		argIDs = append([]string(nil), ids...)
+	}
 	lo := x.Now()
-	err := x.E.VReinforce(index, ids)
+	err := x.E.VReinforce(index, argIDs)
 	hi := x.Now()
+	if x.Scribble {
+		for i := range argIDs {
+			argIDs[i] = "SCRIBBLED"
+		}
+	}
 	x.verdict("VReinforce("+index+")", err, map[bool]int{true: MustOK, false: MustFail}[x.M.Idx[index] != nil])
 	if err != nil {
 		return err
@@ -636,9 +756,13 @@ func propsBytes(props map[string]any) string {
 func (x *Exec) VLink(index, src, tgt, rel, inv string, w float32, props map[string]any) error {
 	x.kind("vlink")
 	x.CS.Op("VLink(%s,%s,%s,%s,%q,%v,%s)", index, src, tgt, rel, inv, w, vkit.JSON(props))
+	argP := copyMeta(props)
 	lo := x.Now()
-	err := x.E.VLink(index, src, tgt, rel, inv, w, copyMeta(props))
+	err := x.E.VLink(index, src, tgt, rel, inv, w, argP)
 	hi := x.Now()
+	if x.Scribble {
+		ScribbleMeta(argP, x.ScribbleNested)
+	}
 	x.verdict("VLink", err, map[bool]int{true: MustOK, false: MustFail}[ValidProps(props)])
 	if err != nil {
 		return err
@@ -750,15 +874,22 @@ func (x *Exec) VEvolve(index, oldID string, vec []float32, meta map[string]any, 
 			x.CS.Fail("before VEvolve: %s", msg)
 		}
 	}
+	x.touch(index, oldID)
+	argV, argM := CopyVec(vec), copyMeta(meta)
 	lo := x.Now()
-	newID, err := x.E.VEvolve(index, oldID, CopyVec(vec), copyMeta(meta), reason)
+	newID, err := x.E.VEvolve(index, oldID, argV, argM, reason)
 	hi := x.Now()
+	if x.Scribble {
+		ScribbleVec(argV)
+		ScribbleMeta(argM, x.ScribbleNested)
+	}
 	x.verdict(fmt.Sprintf("VEvolve(%s,%s)", index, oldID), err, map[bool]int{true: MustOK, false: MustFail}[x.live(index, oldID)])
 	if err != nil {
 		return "", err
 	}
 	x.CS.Op("  -> newID %s", newID)
 	x.M.SeenIDs[newID] = true
+	x.touch(index, newID)
 	mi := x.M.Idx[index]
 	old := mi.Recs[oldID]
 	merged := copyMeta(old.Meta)
@@ -1210,3 +1341,11 @@ func relMapDiff(api, index, node string, got, want map[string][]string) string {
 
 // KindKey is the distinctness key of an episode: its op-kind sequence.
 func (x *Exec) KindKey() string { return strings.Join(x.Kinds, ",") }
+
+// MetaMatch compares metadata read from the engine with the model record (binding clock-chosen
+// fields on first sight), for checks that read records themselves.
+func MetaMatch(r *Rec, got map[string]any) string { return metaMatch(r, got) }
+
+// AbsMax returns the trained int8 range of an index as the exported quantizer reports it (0 =
+// no quantizer / untrained).
+func (x *Exec) AbsMax(index string) float32 { return x.absMax(index) }
